@@ -673,3 +673,117 @@ Proof.
   - eapply apply_lost_led; [|exact ELo]. eapply apply_locs_led; [|exact EL]. subst b2. cbn [set_flot set_st b_st with_utxo s_utxo]. exact L2.
   - rewrite (apply_lost_next _ _ _ _ _ _ ELo), NX3, NX2. lia.
 Qed.
+
+(* ---- transactions of a block, blocks, chains *)
+
+Fixpoint txs_valid (cfg : config) (L : ledger) (l : list tx) (L' : ledger) (fees : N) : Prop :=
+  match l with
+  | [] => L' = L /\ fees = 0
+  | t :: r => exists L1 f1 f2, tx_valid cfg L t L1 f1 /\ txs_valid cfg L1 r L' f2 /\ fees = f1 + f2
+  end.
+
+Lemma index_txs_total : forall cfg h l L L' K fees0 fees b,
+  TM cfg h L K fees0 b -> txs_valid cfg L l L' fees -> K + count_envs l <= I32_LIMIT ->
+  exists b', index_txs cfg h true l b = Ok b' /\ TM cfg h L' (K + count_envs l) (fees0 + fees) b'.
+Proof.
+  intros cfg h l. induction l as [|t r IH]; intros L L' K fees0 fees b HM HV HB; cbn [index_txs txs_valid count_envs fold_right] in *.
+  - destruct HV as [-> ->]. exists b. split; auto. rewrite !N.add_0_r. exact HM.
+  - fold (count_envs r) in *. destruct HV as (L1 & f1 & f2 & V1 & V2 & ->).
+    destruct (index_tx_total_plain cfg h t L L1 K fees0 f1 b HM V1) as (b1 & E1 & M1); [lia|]. rewrite E1. cbn [bind].
+    destruct (IH L1 L' _ _ f2 b1 M1 V2) as (b' & E' & M'); [lia|]. exists b'. split; auto.
+    replace (K + (N.of_nat (length (t_envs t)) + count_envs r)) with (K + N.of_nat (length (t_envs t)) + count_envs r) by lia.
+    replace (fees0 + (f1 + f2)) with (fees0 + f1 + f2) by lia. exact M'.
+Qed.
+
+(* the state between blocks *)
+Definition b_of (st : state) : bst :=
+  mkB st [] 0 0 (s_blessed st) (s_cursed st) 0 (next_seq_of (s_entries st)) [] [].
+
+Record TS (cfg : config) (L : ledger) (K : N) (st : state) : Prop := {
+  s_ti : TI (b_of st);
+  s_led : Led cfg L (s_utxo st);
+  s_cnt : next_seq_of (s_entries st) <= K
+}.
+
+(* a block: coinbase first (null inputs only, claiming at most subsidy + fees), then valid transactions;
+   [h] below the first halving (Height::starting_sat is only modelled there) *)
+Definition block_valid (cfg : config) (h : N) (L : ledger) (K : N) (blk : block) (L' : ledger) (K' : N) : Prop :=
+  match blk with
+  | [] => False
+  | t0 :: r =>
+    exists L1 fees, txs_valid cfg L r L1 fees /\ tx_cb t0 /\ t_id t0 <> 0 /\
+      sum_values (t_outs t0) <= subsidy h + fees /\ L' = ledger_put (t_id t0) 0 (t_outs t0) L1 /\
+      K' = K + count_envs r /\ K' <= I32_LIMIT /\ h < SUBSIDY_HALVING_INTERVAL
+  end.
+
+Lemma index_block_total : forall cfg h blk L L' K K' st,
+  c_first cfg = 0 -> TS cfg L K st -> block_valid cfg h L K blk L' K' ->
+  exists st', index_block cfg h blk st = Ok st' /\ TS cfg L' K' st'.
+Proof.
+  intros cfg h blk L L' K K' st HF0 [ST SL SC] HV. destruct blk as [|t0 r]; [destruct HV|].
+  destruct HV as (L1 & fees & V1 & VCB & Vz & Vs & -> & -> & VK & Vh).
+  unfold index_block. rewrite HF0. replace (0 <=? h) with true by (symmetry; apply N.leb_le; lia).
+  assert (Hcb : exists cb, (if c_sats cfg then if 0 <? subsidy h then do s <- starting_sat h; Ok [(s, s + subsidy h)] else Ok [] else Ok []) = Ok cb /\
+                (c_sats cfg = true -> ranges_size cb = subsidy h)).
+  { destruct (c_sats cfg); [|eexists; split; [reflexivity|discriminate]].
+    destruct (0 <? subsidy h) eqn:Q.
+    - unfold starting_sat. destruct (N.ltb_spec h SUBSIDY_HALVING_INTERVAL); [|lia]. cbn [bind]. eexists. split; [reflexivity|]. intros _. cbn. lia.
+    - eexists. split; [reflexivity|]. intros _. cbn. destruct (N.ltb_spec 0 (subsidy h)); [discriminate|lia]. }
+  destruct Hcb as (cb & -> & Hcbs). cbn [bind tl].
+  match goal with |- context [index_txs cfg h true r ?B] => set (b0 := B) end.
+  assert (M0 : TM cfg h L K 0 b0).
+  { subst b0. split; cbn [b_st b_flot b_next b_reward b_cb_ranges].
+    - eapply TI_ext; [| | | | | |exact ST]; try reflexivity. intros op u s off Hu Hp. destruct ST as [_ _ _ TK _]. eapply TK; eauto.
+    - intros f s [].
+    - exact SL.
+    - unfold nnew. cbn. lia.
+    - lia.
+    - exact Hcbs.
+    - intros f []. }
+  destruct (index_txs_total cfg h r L L1 K 0 fees b0 M0 V1) as (b1 & E1 & M1); [lia|]. rewrite E1. cbn [bind].
+  rewrite N.add_0_l in M1.
+  destruct (index_tx_total_cb cfg h t0 L1 (K + count_envs r) fees b1 M1 VK VCB Vz Vs) as (b2 & E2 & T2 & L2 & N2).
+  rewrite E2. cbn [bind]. eexists. split; [reflexivity|].
+  destruct T2 as [TD TV TX TK TC].
+  assert (Hnx : next_seq_of (s_entries (b_st b2)) = b_next b2) by (apply next_seq_of_dom; exact TD).
+  split; cbn [s_entries s_utxo].
+  - unfold b_of. cbn [s_entries s_blessed s_cursed]. split; cbn [b_st b_next b_blessed b_cursed s_entries s_id2seq s_utxo]; rewrite ?Hnx; auto.
+    intros op u s off Hu Hp. destruct (b_lost_ranges b2) as [|p l]; [eapply TK; eauto|].
+    rewrite tgP_set in Hu. destruct (pair_eqb op null_op); [|eapply TK; eauto]. inv Hu. cbn [u_insc] in Hp.
+    destruct (tgP null_op (s_utxo (b_st b2))) as [e0|] eqn:T; [eapply TK; eauto | cbn in Hp; contradiction].
+  - destruct (b_lost_ranges b2) as [|p l]; [exact L2|]. intros op v Hq. destruct (L2 op v Hq) as (Z & u & A & B). split; auto.
+    exists u. rewrite tgP_set. rewrite pair_eqb_false; auto. intro. subst. apply Z. reflexivity.
+  - rewrite Hnx. exact N2.
+Qed.
+
+Fixpoint chain_valid (cfg : config) (h : N) (L : ledger) (K : N) (c : list block) : Prop :=
+  match c with
+  | [] => True
+  | blk :: r => exists L' K', block_valid cfg h L K blk L' K' /\ chain_valid cfg (h + 1) L' K' r
+  end.
+
+Lemma index_chain_total : forall cfg c h L K st,
+  c_first cfg = 0 -> TS cfg L K st -> chain_valid cfg h L K c -> exists st', index_chain cfg h c st = Ok st'.
+Proof.
+  intros cfg c. induction c as [|blk r IH]; intros h L K st HF0 HT HV; cbn [index_chain chain_valid] in *; [eauto|].
+  destruct HV as (L' & K' & V1 & V2). destruct (index_block_total cfg h blk L L' K K' st HF0 HT V1) as (st1 & -> & T1). cbn [bind].
+  eapply IH; eauto.
+Qed.
+
+Lemma TS_empty : forall cfg, TS cfg [] 0 empty_state.
+Proof.
+  intro cfg. split.
+  - unfold b_of. split; cbn.
+    + intro s. split; [intro H; exfalso; apply H; reflexivity | lia].
+    + intros; discriminate.
+    + intros; discriminate.
+    + intros; discriminate.
+    + lia.
+  - intros op v H. discriminate.
+  - cbn. lia.
+Qed.
+
+(* C16 for the inscription updater *)
+Theorem inscription_updater_total : forall cfg c,
+  c_first cfg = 0 -> chain_valid cfg 0 [] 0 c -> exists st, index_chain cfg 0 c empty_state = Ok st.
+Proof. intros cfg c HF0 HV. eapply index_chain_total; eauto. apply TS_empty. Qed.
